@@ -295,11 +295,14 @@ def run(res):
     bads = balancelib.coq_mismatches("c02s", "scase", "s_mismatches", scases)
     badc = balancelib.coq_mismatches("c02c", "scase", "sc_mismatches", ccases)
     byid = {sc["id"]: sc for sc in scs}
+    casetext = {("transition",) + t: x for t, x in tcases}
+    casetext.update({("state",) + t: x for t, x in scases})
+    casetext.update({("state-after-member-loss",) + t: x for t, x in ccases})
     for kind, bad in (("transition", badt), ("state", bads), ("state-after-member-loss", badc)):
         for (sid, step, part) in bad[:3]:
             sc = byid[sid]
             res.violation({"kind": "model-vs-impl", "what": kind, "cluster": sc["cluster"], "scenario": {"ops": sc["ops"]}, "failed_step": step,
-                           "partition": part, "op": sc["ops"][step], "failed_members": sc["_failed"],
+                           "partition": part, "op": sc["ops"][step], "model_case": casetext.get((kind, sid, step, part), "")[:6000], "failed_members": sc["_failed"],
                            "theorem_or_correspondence": "Model/BalanceRun.v %s on the abstracted white-box dump" % {
                                "transition": "explains", "state": "state_ok"}.get(kind, "state_ok_crash"), "seed": res.seed}, no_input=True)
     res.coverage["model"] = dict(mstats, transition_cases=len(tcases), state_cases=len(scases), crash_state_cases=len(ccases),
